@@ -33,19 +33,22 @@ MAX_EVENTS = 50
 
 
 def _close(a, b):
-    """Equal up to 1e-6 of the value's scale: a re-evaluation on single-
-    precision data that were re-normalised in between moves by rounding
-    noise; stale or overwritten values differ by far more."""
-    scale = 1.0
+    """Equal up to 1e-6 (single-precision values: 1e-4) of the value's
+    scale: a re-evaluation on single-precision data that were re-normalised
+    in between moves by rounding noise; stale or overwritten values differ
+    by far more."""
+    scale, eps = 1.0, 1e-6
     try:
         x = np.asarray(b)
         if x.dtype.kind in "fc" and x.size:
             m = np.nanmax(np.abs(x[np.isfinite(x)])) if np.isfinite(
                 x).any() else 1.0
             scale = max(1.0, float(m))
+            if x.dtype in (np.float32, np.complex64):
+                eps = 1e-4      # single-precision values
     except Exception:
         pass
-    return C.same(a, b, (1e-6, 1e-6 * scale))
+    return C.same(a, b, (eps, eps * scale))
 
 
 def _key(self, attrs, a, k):
